@@ -289,6 +289,9 @@ class C12(Prop):
             if rng.random() < 0.15:
                 # defined but not to be started by the daemon
                 w0['opts']['autostart'] = 'False'
+            if rng.random() < 0.2:
+                # the daemon's own environment underneath the sections
+                w0['opts']['copy_env'] = 'True'
             if rng.random() < 0.25:
                 w0['opts']['stdout_stream.class'] = 'FileStream'
                 w0['opts']['stdout_stream.filename'] = \
@@ -348,13 +351,14 @@ class C12(Prop):
             elif kind == 'option':
                 w = rng.choice(ws)
                 k = rng.choice(['graceful_timeout', 'max_retry', 'priority',
-                                'stop_signal', 'respawn'])
+                                'stop_signal', 'respawn', 'copy_env'])
                 w.setdefault('opts', {})[k] = {
                     'graceful_timeout': rng.choice([0, 0.1, 0.3]),
                     'max_retry': rng.choice([2, 5, 7]),
                     'priority': rng.choice([0, 1, 5]),
                     'stop_signal': rng.choice(['TERM', 'INT', 'QUIT']),
-                    'respawn': rng.choice(['True', 'False'])}[k]
+                    'respawn': rng.choice(['True', 'False']),
+                    'copy_env': rng.choice(['True', 'False'])}[k]
             elif kind == 'new_option':
                 w = rng.choice(ws)
                 k = rng.choice(['max_age', 'max_age_variance',
@@ -385,7 +389,12 @@ class C12(Prop):
             elif kind == 'env':
                 w = rng.choice(ws)
                 w['env'] = rng.choice([None, {'A': '1'}, {'A': '2'},
-                                       {'A': '1', 'B': 'x y'}])
+                                       {'A': '1', 'B': 'x y'},
+                                       # names the daemon's own environment
+                                       # has as well
+                                       {'PATH': '/opt/one:/usr/bin'},
+                                       {'PATH': '/opt/two:/usr/bin'},
+                                       {'HOME': '/h1', 'A': '1'}])
             elif kind == 'env_global':
                 v['env'] = rng.choice([None, {'GLOBAL': 'g1'},
                                        {'GLOBAL': 'g2'}])
